@@ -84,6 +84,15 @@ Ip6El(n, ver, tc, fl, chain, proto, tag, dl, nopt, fragoff, more) ==
        \o SetAll(n, t0, <<"Version", "TrafficClass", "FlowLabel", "Length", "NextHeader", "HopLimit", "NWSrc", "NWDst">>)
        \o (IF hb = <<>> THEN <<>> ELSE <<Set(n, "HbhHeader", Ref(hb[1].n))>>) \o (IF rt = <<>> THEN <<>> ELSE <<Set(n, "RoutingHeader", Ref(rt[1].n))>>)
        \o (IF fr = <<>> THEN <<>> ELSE <<Set(n, "FragmentHeader", Ref(fr[1].n))>>) \o <<Set(n, "Data", Ref(pay.n))>>)
+\* the extension headers (in chain order) and the payload of Ip6El as elements of their own (the very elements Ip6El builds): their
+\* standalone encodings must appear inside the IPv6 packet whole and in this order
+Ip6Parts(n, chain, proto, tag, dl, nopt, fragoff, more) ==
+  [k \in 1..(Len(chain) + 1) |->
+     IF k = Len(chain) + 1 THEN L4(Nm(n, 1), proto, tag + 30, dl)
+     ELSE LET nxt == IF k = Len(chain) THEN proto ELSE ExtCode(chain[k + 1]) IN
+          CASE chain[k] = "hbh" -> HbhEl(Nm(n, 2), nxt, nopt, tag)
+            [] chain[k] = "rt" -> RtEl(Nm(n, 3), nxt, tag % 3, tag + 7)
+            [] chain[k] = "fr" -> FragEl(Nm(n, 4), nxt, fragoff, more, tag + 9)]
 EthEl(n, pcp, dei, vid, etype, pay, tag) ==
   LET t == [T |-> "Ethernet", Delimiter |-> <<0>>, HWDst |-> V(tag, 6), HWSrc |-> V(tag + 1, 6),
             VLANID |-> [T |-> "VLAN", TPID |-> (IF pcp = 0 /\ dei = 0 /\ vid = 0 THEN <<0, 0>> ELSE <<129, 0>>), PCP |-> <<pcp>>, DEI |-> <<dei>>, VID |-> BE16(vid)], Ethertype |-> etype, Data |-> pay.tree] IN
@@ -160,7 +169,8 @@ NextIP6 == \/ \E ver \in 0..15, tc \in {0, 1, 15, 16, 128, 240, 255} :
                 /\ Emit("IP6", Ip6El("i", 6, 170, fl, <<>>, 58, fl % 150, 1, 0, 0, FALSE), <<>>)
            \/ \E chain \in Chains, proto \in {58, 17, 59, 6}, nopt \in 0..3 :
                 /\ c' = <<"ch", chain, proto, nopt>>
-                /\ Emit("IP6", Ip6El("i", 6, 9, 74565, chain, proto, Len(chain) * 7 + nopt, 5, nopt, 1234, nopt % 2 = 1), <<>>)
+                /\ Emit("IP6", Ip6El("i", 6, 9, 74565, chain, proto, Len(chain) * 7 + nopt, 5, nopt, 1234, nopt % 2 = 1),
+                        Ip6Parts("i", chain, proto, Len(chain) * 7 + nopt, 5, nopt, 1234, nopt % 2 = 1))
 NextFRAG == \E w \in 0..16383 :
               /\ Sel(w)
               /\ c' = <<w>>
